@@ -267,9 +267,6 @@ func (v *authorizer) Authorize() error {
 		return fmt.Errorf("biscuit: verification failed: %s", strings.Join(errMsg, ", "))
 	}
 
-	v.baseWorld = v.world.Clone()
-	v.baseSymbols = v.symbols.Clone()
-
 	if policyMatched {
 		return policyResult
 	} else {
